@@ -11,7 +11,11 @@ PROP = dict(
          "{opcodes 79..185} U {9 boundary pushes} U {pushes and PUSHDATA1/2/4 prefixes whose declared length is |lock|, |lock|+1, "
          "|lock|+2, and truncated prefixes}, length 3 sampled (thorough: exhaustive on P2PKH), length 4 sampled, plus grammar, hostile "
          "and random longer scripts, both rule sets; any acceptance is a violation. c03.signed: library-signed spends of every "
-         "template x six FORKID types x both rule sets are accepted. c03.sig: generate_signature output is deterministic, strict DER, "
+         "template x six FORKID types x both rule sets are accepted. c03.mut: wallet-signed (Wallet::sign_tx_input) P2PKH spend of every input position of 1..5-input / 1..5-output "
+         "transactions under the six FORKID types, then each of 20 single-field mutations (version, lock time, own/other sequence, own/other "
+         "outpoint, added input, same-index/other output amount and script, added/removed output, spent amount, spent script, key, "
+         "signature r/s/type byte, another input's unlocking script): Tx::validate must fail exactly when BIP-143 commits to the field "
+         "for that type (coverage table CG/Spec/SighashCoverage.lean), and succeed otherwise. c03.sig: generate_signature output is deterministic, strict DER, "
          "low S, 9..73 bytes and verifies under the signer's key in an independent Lean secp256k1 (keys incl. scalars 1, 2, n-1; "
          "digests incl. all-zero and all-ones). Non-trivial: the unlocking script ran to completion (the outcome was decided by the "
          "locking script) is not observable; counted conservatively as unlocking scripts of at least two atoms.",
